@@ -424,7 +424,13 @@ class Interp:
                            items=tuple(vconst(x) for x in c))
             return vconst(c)
         except Exception:
-            return Val()
+            pass
+        if isinstance(node, ast.Name):
+            # a default that names a class / function / constant of the defining module (`family_type=TabulatedGSDShapeFamily`)
+            r = self.index.resolve_name(module, node.id)
+            if r is not None and isinstance(r, (ClassInfo, FuncInfo)):
+                return self.global_val(r, node.id)
+        return Val()
 
     # ------------------------------------------------------------------ statements
     def exec_block(self, stmts, st: Optional[St]) -> Optional[St]:
